@@ -616,15 +616,16 @@ theorem respell_exact (d0 : Char) (dr : List Char) (e0 : Char) (er : List Char)
     (hd0 : wsChar d0 = false) (hel : ∀ w c, (e0 :: er) = w ++ [c] → wsChar c = false)
     (hd0' : wsChar d0' = false) (hel' : ∀ w c, (e0' :: er') = w ++ [c] → wsChar c = false)
     (ps : List Piece)
-    (hfree : ∀ p ∈ ps, p.free ((d0 :: dr) ++ (e0 :: er)) ∧ p.free ((d0' :: dr') ++ (e0' :: er')))
+    (hfree : ∀ p ∈ ps, p.fits d0 e0 (d0 :: dr) (e0 :: er) ∧ p.fits d0' e0' (d0' :: dr') (e0' :: er'))
     (cfg : Cfg) (out out' : List Char)
     (hnu : NoUnwrapAttr (parseSource (renderAll (d0 :: dr) (e0 :: er) ps) (d0 :: dr) (e0 :: er)))
     (h : clean (renderAll (d0 :: dr) (e0 :: er) ps) (d0 :: dr) (e0 :: er) cfg = .ok out)
     (h' : clean (renderAll (d0' :: dr') (e0' :: er') ps) (d0' :: dr') (e0' :: er') cfg = .ok out') :
     ∃ qs, out = renderAll (d0 :: dr) (e0 :: er) qs ∧ out' = renderAll (d0' :: dr') (e0' :: er') qs := by
-  have hok : ∀ p ∈ ps, p.ok d0 e0 := fun p hp => ok_of_free d0 dr e0 er p (hfree p hp).1
-  have hok' : ∀ p ∈ ps, p.ok d0' e0' := fun p hp => ok_of_free d0' dr' e0' er' p (hfree p hp).2
-  have hT := tokXs_of_tnorm (d0 :: dr) (e0 :: er) (d0' :: dr') (e0' :: er') ps [] _ _ hfree
+  have hok : ∀ p ∈ ps, p.ok d0 e0 := fun p hp => Piece.ok_of_fits _ _ _ _ p (hfree p hp).1
+  have hok' : ∀ p ∈ ps, p.ok d0' e0' := fun p hp => Piece.ok_of_fits _ _ _ _ p (hfree p hp).2
+  have hT := tokXs_of_tnorm (d0 :: dr) (e0 :: er) (d0' :: dr') (e0' :: er') ps [] _ _
+    (fun p hp => ⟨Piece.strip_of_fits _ _ _ _ p (hfree p hp).1, Piece.strip_of_fits _ _ _ _ p (hfree p hp).2⟩)
     (tokens_tnorm d0 dr e0 er ps hok) (tokens_tnorm d0' dr' e0' er' ps hok')
   have hG := parse_x (d0 :: dr) (e0 :: er) (d0' :: dr') (e0' :: er') (fun _ _ => True) (by simp) (by simp) (by simp) (by simp) _ _ hT
   have hnu' : NoUnwrapAttr (parseSource (renderAll (d0' :: dr') (e0' :: er') ps) (d0' :: dr') (e0' :: er')) := by
@@ -666,5 +667,31 @@ theorem respell_exact (d0 : Char) (dr : List Char) (e0 : Char) (er : List Char)
 /-! Non-vacuity: the example of `respell_default` has no `unwrap-block`; both cleanings give the same text. -/
 example : NoUnwrapAttr (parseSource (renderAll "<".toList ">".toList exPs2) "<".toList ">".toList) :=
   noUnwrapAttr_of_all _ (by decide +kernel)
+
+/-! Non-vacuity with the command's default delimiters `<!-- <` / `> -->`, whose characters - blank, `-`, `<`, `>` -
+    do occur in tag bodies (`tl to='2001-01-01 00:00:00'`): the pieces fit both spellings, and both cleanings give the
+    same pieces. -/
+def fitsB (d0 e0 : Char) (ds de : List Char) : Piece → Bool
+  | .text s => s.all (· != d0)
+  | .tag b0 rest => rest.all (· != e0) && !(ds.isPrefixOf ((b0 :: rest) ++ de)) && !(de.reverse.isPrefixOf (b0 :: rest).reverse)
+
+theorem fitsB_sound (d0 e0 : Char) (ds de : List Char) (p : Piece) (h : fitsB d0 e0 ds de p = true) : p.fits d0 e0 ds de := by
+  cases p with
+  | text s =>
+    intro c hc
+    simp only [fitsB, List.all_eq_true] at h
+    simpa using h c hc
+  | tag b0 rest =>
+    simp only [fitsB, Bool.and_eq_true, List.all_eq_true, Bool.not_eq_true'] at h
+    obtain ⟨⟨h1, h2⟩, h3⟩ := h
+    exact ⟨fun c hc => by simpa using h1 c hc, h2, h3⟩
+
+example : (∀ p ∈ exPs2, p.fits '<' '>' "<".toList ">".toList ∧ p.fits '<' '>' "<!-- <".toList "> -->".toList) ∧
+    outIs (clean (renderAll "<!-- <".toList "> -->".toList exPs2) "<!-- <".toList "> -->".toList exC2) "a\nm\n\nz\n" = true := by
+  refine ⟨?_, by decide +kernel⟩
+  intro p hp
+  have h1 : exPs2.all (fitsB '<' '>' "<".toList ">".toList) = true := by decide +kernel
+  have h2 : exPs2.all (fitsB '<' '>' "<!-- <".toList "> -->".toList) = true := by decide +kernel
+  exact ⟨fitsB_sound _ _ _ _ p (List.all_eq_true.mp h1 p hp), fitsB_sound _ _ _ _ p (List.all_eq_true.mp h2 p hp)⟩
 
 end Chiritori.Props.C18
